@@ -51,6 +51,10 @@ impl TypeRegistry {
             .collect()
     }
 
+    pub(crate) fn item_count(&self) -> usize {
+        self.types.len()
+    }
+
     pub(crate) fn add(&mut self, type_: ItemDefinition) {
         self.types.insert(type_.path.clone(), type_);
     }
